@@ -14,4 +14,4 @@ else
 fi
 [ "$1" = "--" ] && shift
 (cd /repo && git diff --no-index --stat . "$D" 2>/dev/null | tail -1) || true
-VERIF_REPO="$D" "$@"
+VERIF_EVIDENCE_DIR=/tmp/mut-evidence VERIF_REPLAY_DIR=/tmp/mut-replays VERIF_REPO="$D" "$@"
